@@ -236,7 +236,7 @@ func (s *srvConn) serve(cfg *negCfg, r *negRec) {
 	if !s.openStream(cfg, r, "header1") {
 		return
 	}
-	needOpen := false
+	needOpen, pipelined := false, false
 	for {
 		u := s.read()
 		if vrt.Killed() {
@@ -259,6 +259,11 @@ func (s *srvConn) serve(cfg *negCfg, r *negRec) {
 			step := "header2"
 			if r.phase == "authed" {
 				step = "header3"
+			}
+			if pipelined {
+				pipelined = false
+				r.answer(step, "ok", true)
+				continue
 			}
 			if !s.openStream(cfg, r, step) {
 				return
@@ -335,14 +340,27 @@ func (s *srvConn) serve(cfg *negCfg, r *negRec) {
 					r.AuthPayload = u.raw[i+1 : j]
 				}
 			}
-			a := cfg.pick("auth", "success", "failure", "stream-error", "unexpected", "malformed", "truncated", "close")
-			r.answer("auth", a, a == "success")
+			a := cfg.pick("auth", "success", "failure", "stream-error", "unexpected", "malformed", "truncated", "close", "success-pipelined")
+			r.answer("auth", a, a == "success" || a == "success-pipelined")
 			switch a {
 			case "success":
 				s.send("<success xmlns='" + nsSASL + "'/>")
 				r.AuthOK = true
 				r.phase = "authed"
 				needOpen = true
+				continue
+			case "success-pipelined":
+				// a server that does not wait for the client's restart header: <success/>, the new
+				// stream header and the features reach the client in one segment
+				r.AuthOK = true
+				r.phase = "authed"
+				s.streamID = fmt.Sprintf("sid-%d-header3", s.k)
+				if len(cfg.streamIDs) > 0 {
+					s.streamID = cfg.streamIDs[0]
+				}
+				s.send("<success xmlns='" + nsSASL + "'/>" + s.header("jabber:client") + s.features(cfg, r))
+				needOpen = true
+				pipelined = true
 				continue
 			case "failure":
 				s.send("<failure xmlns='" + nsSASL + "'><not-authorized/></failure>")
